@@ -223,6 +223,12 @@ def _busy_thread():
                 if core and i % 3 == 0:
                     sa, apply_odata_core, tbl = core
                     str(apply_odata_core(sa.select(tbl), "zz1 eq %d and contains(zz2, 'q%d') or zz3 in (1, 2)" % (i, i)))
+                if i % 3 == 1 and "vp.djapp.models" in sys.modules:
+                    # the check has configured Django by now: the Django shorthand too (compile only, on this
+                    # thread's own connection)
+                    from odata_query.django import apply_odata_query as dj_apply
+                    M = sys.modules["vp.djapp.models"]
+                    str(dj_apply(M.Item.objects, "i1 eq %d and contains(s1, 'q%d') or i2 in (1, 2)" % (i, i)).query)
             except Exception:
                 pass
 
